@@ -455,6 +455,10 @@ static void histories(unsigned long long& unit)
 		{"sqrt|x-1/3| on [0,1] eps 1e-9 depth 12", [](double x) { return std::sqrt(std::fabs(x - 1.0 / 3)); }, 0, 1, 1e-9, 12},
 		{"cos on [1000,1000+1e-6] eps 1e-18 depth 5", [](double x) { return std::cos(x); }, 1000, 1000 + 1e-6, 1e-18, 5},
 		{"equal limits", [](double x) { return x; }, 0.5, 0.5, 1e-6, 10},
+		// other integrands that start exactly where an earlier letter ends (and end where another one starts)
+		{"cos on [1,2.5] eps 1e-8 depth 10", [](double x) { return std::cos(x); }, 1, 2.5, 1e-8, 10},
+		{"x^2+1 on [2,-1] eps 1e-6 depth 6", [](double x) { return x * x + 1; }, 2, -1, 1e-6, 6},
+		{"1/(1+x^2) on [25,0] eps 1e-9 depth 14", [](double x) { return 1 / (1 + x * x); }, 25, 0, 1e-9, 14},
 	};
 	std::vector<mc::PureLetter> L;
 	for(auto& r : R)
